@@ -16,7 +16,7 @@
    equals RFC 9106's B[i][j] recurrence; the model of that loop mirrors src/argon2.rs, reproduces
    both RFC 9106 test vectors by computation (below) and is run against the crate and libsodium
    by the check. *)
-From Dryoc Require Import Spec.Argon2 Impl.Argon2 Gen.Kernels Refine.Argon2 Refine.Argon2Safe Refine.Argon2G Refine.Argon2Rfc Refine.Argon2Gen.
+From Dryoc Require Import Spec.Argon2 Impl.Argon2 Gen.Kernels Refine.Argon2 Refine.Argon2Safe Refine.Argon2G Refine.Argon2Rfc Refine.Argon2Gen Gen.Argon2Arith Refine.Argon2ArithGen.
 Import Argon2Impl.
 Open Scope Z_scope.
 
@@ -140,6 +140,15 @@ Example C09_spec_known_answer :
   [0x1d; 0x16; 0x21; 0x9b; 0x1b; 0x82; 0x8d; 0x4c; 0xda; 0x04; 0x26; 0x18; 0x10; 0xc7; 0x6d; 0x90;
    0x62; 0xb3; 0xc4; 0xf3; 0xd2; 0x48; 0x44; 0xff; 0x11; 0x9a; 0x4a; 0xbd; 0x28; 0x9a; 0xb8; 0x89].
 Proof. vm_compute. reflexivity. Qed.
+
+(* index_alpha and fblamka as translated from src/argon2.rs on this run are the model's, for all arguments *)
+Theorem C09_index_alpha_from_source : forall seg lane_len pass slice index pseudo_rand same_lane,
+  gen_index_alpha seg lane_len pass slice index pseudo_rand same_lane =
+  index_alpha seg lane_len pass slice index pseudo_rand same_lane.
+Proof. exact gen_index_alpha_is_model. Qed.
+
+Theorem C09_fblamka_from_source : forall x y, gen_fblamka x y = fblamka x y.
+Proof. exact gen_fblamka_is_model. Qed.
 
 Theorem C09_verify_iff : forall stored salt hl ops mem alg pwd,
   verify stored salt hl ops mem alg pwd = Ok tt <-> hash_with_salt pwd salt hl ops mem alg = Ok stored.
